@@ -154,6 +154,22 @@ def vectors4(tier="quick", boundary=False, kinds=("timelike", "fast", "spacelike
     return out
 
 
+STRATA_TAGS = ("q1", "q2", "q3", "q4", "up", "down", "timelike", "fast", "spacelike", "spacelike_tltz", "negtime", "near_axis", "wildphi")
+
+
+def representatives(vs, n, tags=STRATA_TAGS):
+    """A sub-alphabet of about n vectors that still holds at least one vector of every stratum present in vs: every k-th vector,
+    then one more for each tag not yet covered (quick tiers must thin out values, not strata)."""
+    vs = list(vs)
+    if len(vs) <= n:
+        return vs
+    pick = vs[:: max(1, len(vs) // n)][:n]
+    for tag in tags:
+        if not any(v.has(tag) for v in pick):
+            pick += [v for v in vs if v.has(tag)][:1]
+    return pick
+
+
 def vectors(dim, tier="quick", boundary=False, **kw):
     return {2: vectors2, 3: vectors3, 4: vectors4}[dim](tier, boundary, **kw)
 
